@@ -195,7 +195,7 @@ def sweep_lines(cx, state, precs):
     return L
 
 
-def build_executions(edges, walks, cx, variant, sweep_every=0, rng=None, alloc=False, fill=None, apis=('cxx',)):
+def build_executions(edges, walks, cx, variant, sweep_every=0, rng=None, alloc=False, fill=None, apis=('cxx',), sweep_after_fatal=0.0):
     execs = []
     for w in walks:
         script = []
@@ -204,8 +204,15 @@ def build_executions(edges, walks, cx, variant, sweep_every=0, rng=None, alloc=F
             api = rng.choice(apis) if (rng and e['act']['p'] == 'd') else 'cxx'
             if e['act']['name'] == 'printid':
                 api = 'cxx'
+            if e['act']['name'] == 'eval' and api == 'c':
+                import gen
+                if tuple(cx.ev[e['act']['args'][0]]) not in gen.c_overloads():
+                    api = 'cxx'
             script.append(cx.call(e['act'], api))
-            if sweep_every and e['to']['status'] == 'run' and rng.random() < 1.0 / sweep_every:
+            fatal = 'FATAL' in e['act'].get('o', {}).get('tags', [])
+            if fatal and sweep_after_fatal and e['to']['status'] == 'run' and rng.random() < sweep_after_fatal:
+                script += sweep_lines(cx, e['to'], sorted(e['to']['sel'].keys()))
+            elif sweep_every and e['to']['status'] == 'run' and rng.random() < 1.0 / sweep_every:
                 script += sweep_lines(cx, e['to'], sorted(e['to']['sel'].keys()))
         last = edges[w[-1]]
         if last['to']['status'] == 'run':
